@@ -399,9 +399,40 @@ def steps_str(beh):
     return " ".join(("R(%s,%s)" % (s["lib"], s["mode"])) if s["op"] == "R" else "Q" for s in beh["hist"])
 
 
+def apalache_alloc(ctx, work):
+    """IdbAlloc: the range allocator's inductive invariant over unbounded integers (Apalache, under timeout).
+    Base case (Init => IndInv) and step (IndInv /\\ Next => IndInv')."""
+    import subprocess, shutil as sh
+    from ..common import SPECS
+    if not sh.which("apalache-mc"):
+        ctx.notes["apalache"] = "apalache-mc not available"
+        return
+    out = {}
+    for name, args in (("base", ["--init=Init", "--inv=IndInv", "--length=0"]),
+                       ("step", ["--init=IndInit", "--inv=IndInv", "--length=1"])):
+        try:
+            r = subprocess.run(["timeout", "150", "apalache-mc", "check"] + args +
+                               ["--out-dir=" + os.path.join(work, "apalache"), "IdbAlloc.tla"],
+                               cwd=SPECS, stdout=subprocess.PIPE, stderr=subprocess.STDOUT, text=True)
+        except OSError as e:
+            ctx.notes["apalache"] = "could not run: %s" % e
+            return
+        if "The outcome is: NoError" in r.stdout:
+            out[name] = "NoError"
+        elif "The outcome is: Error" in r.stdout:
+            raise MachineryError("IdbAlloc: Apalache refutes the inductive invariant (%s case)\n%s" % (name, r.stdout[-1500:]))
+        else:
+            out[name] = "no verdict (rc %s)" % r.returncode      # timeout / tool problem: not claimed
+    ctx.notes["apalache_IdbAlloc_inductive_invariant"] = out
+    sh.rmtree(os.path.join(work, "apalache"), ignore_errors=True)
+
+
 def run_check(ctx):
+    import time
     build.ensure("hooked")
     work = ctx.tmp
+    t0 = time.time()
+    phase = ctx.notes.setdefault("phase_seconds", {})
 
     def model(cfg):
         dump = os.path.join(work, cfg + ".ndjson")
@@ -409,7 +440,11 @@ def run_check(ctx):
                       timeout=900 if ctx.tier == "quick" else 3000)
         return cfg, res, dump
     C, P, B = {}, {}, []
-    for cfg, res, dump in run.pmap(model, CFGS[ctx.tier], workers=2):
+    jobs = [lambda c=c: model(c) for c in CFGS[ctx.tier]] + [lambda: apalache_alloc(ctx, work)]
+    for out in run.pmap(lambda f: f(), jobs, workers=3):
+        if out is None:
+            continue
+        cfg, res, dump = out
         ctx.add_tlc(res)
         if res.verdict == "invariant":
             raise MachineryError("Idb/%s: invariant %s violated in the model: the mechanism as transcribed does not "
@@ -417,11 +452,22 @@ def run_check(ctx):
         tlc.must_ok(res, cfg)
         c, p, b = load_dump(dump)
         C.update(c); P.update(p); B += b
-        os.unlink(dump)
+        if os.path.exists(dump):
+            os.unlink(dump)
     if not B or not P:
         raise MachineryError("no behaviours dumped")
+    phase["tlc"] = round(time.time() - t0, 1); t0 = time.time()
     ctx.cov["exhaustive"] = True
+    ctx.cov["rule"] = ("one case = one complete behaviour (a set of library database files, a sequence of Request(lib, mode) "
+                       "and Query steps in which every library is requested, ending in a Query) executed in a fresh process, "
+                       "or one load order of a set of libraries produced by interrogate; distinct = distinct (library "
+                       "contents, step sequence); non-trivial = at least two libraries mention the same type name, so that "
+                       "merge_from identifies types")
     n, traces, cdirs = replay_model(ctx, work, C, P, B)
+    def shared(b):
+        ct = b["content"]
+        return any(sum(1 for l in ct if ct[l][k] != "absent") >= 2 for k in range(len(next(iter(ct.values())))))
+    ctx.cov["distinct_nontrivial"] = len({(json.dumps(b["content"], sort_keys=True), steps_str(b)) for b in B if shared(b)})
     ctx.cov["evaluations"] += n
     ctx.cov["traces_validated_against_impl"] += n
     ctx.notes["model_behaviours_replayed"] = n
@@ -429,6 +475,7 @@ def run_check(ctx):
     for b in B[:: max(1, len(B) // 4)][:4]:
         ctx.sample(dict(libraries=b["content"], steps=steps_str(b)))
 
+    phase["replay"] = round(time.time() - t0, 1); t0 = time.time()
     # ---- trace validation of the replay runs ------------------------------------------------------
     files_of_case = {}
     tfiles = []
@@ -438,6 +485,8 @@ def run_check(ctx):
             files_of_case[cid] = C[_idbm.content_key(beh["content"])]["files"]
     if not any(os.path.exists(t) and os.path.getsize(t) > 0 for t in tfiles):
         raise MachineryError("the H-idb hooks recorded nothing: is patches/c13-hooks.diff applied to the tree under test?")
+    # a fixed stratified part of the batches (the replay comparison above is complete)
+    tfiles = tfiles[::3] if ctx.tier == "quick" else tfiles[::4]
     ng = NCPU
     groups = []
     nev = 0
@@ -451,8 +500,11 @@ def run_check(ctx):
     validate(ctx, groups, "replayed model behaviours")
     ctx.notes["trace_events_validated"] = nev
 
+    phase["trace_validation"] = round(time.time() - t0, 1); t0 = time.time()
     # ---- real libraries -------------------------------------------------------------------------
     nr = realworld(ctx, work)
+    phase["real_libraries"] = round(time.time() - t0, 1)
     ctx.cov["evaluations"] += nr
     ctx.cov["traces_validated_against_impl"] += nr
     ctx.notes["real_library_loads"] = nr
+    ctx.cov["distinct_nontrivial"] += nr
